@@ -508,6 +508,8 @@ def opOwners (H : Heap) : Op → Owner → Prop
   | .setIdx a _ _ _, o => o = Owner.inst a
   | .mkbuf _, o => o = Owner.ext
   | .scribble _, o => o = Owner.ext
+  | .copy b _ _ _ _, o => o = Owner.inst b
+  | .clone _, o => o = Owner.inst H.insts.length
   | .read _ _, _ => False
   | .encode _, _ => False
 
@@ -780,6 +782,42 @@ theorem step_sound {S : Schema} {H H' : Heap} {op : Op} (hi : Inv H) (hs : step 
           hi hext ?_ (by simp) [] (by simp) (by simp) (by simp) [] (by simp) (by simp)
         exact setBody_closed hi.closed hc (by intro r hr; simp [Body.refs] at hr)
       · simp at hs
+
+  | copy b pb k a pa =>
+    simp only [step] at hs
+    obtain ⟨ro, hr, hs⟩ := bind_ok hs
+    cases ro with
+    | none => simp at hs
+    | some r =>
+      simp only at hs
+      obtain ⟨_, _, hs⟩ := bind_ok hs
+      obtain ⟨_, _, hs⟩ := bind_ok hs
+      obtain ⟨hb, c, hc, hm⟩ := mutTarget_owned hi hr
+      have hown := classSafe_owner (op := .copy b pb k a pa) rfl hsafe hr hc hm
+      rw [hc] at hs
+      rcases c with ⟨o, bd⟩
+      cases bd with
+      | list xs => simp at hs
+      | buf bs => simp at hs
+      | obj cc st =>
+        simp only at hs
+        obtain ⟨t, _, hs⟩ := bind_ok hs
+        obtain ⟨t', _, hs⟩ := bind_ok hs
+        injection hs with hs; subst hs
+        have := mutate_sound t' (.obj cc (storeSet st k (allocTree (Owner.inst b) t' H.cells).2)) hi hb hc hown storeSet_refs
+        exact ⟨this.1, this.2, Or.inl rfl⟩
+  | clone a =>
+    simp only [step] at hs
+    obtain ⟨cr, _, hs⟩ := bind_ok hs
+    split at hs
+    · obtain ⟨t, _, hs⟩ := bind_ok hs
+      split at hs
+      · rename_i root hroot
+        injection hs with hs; subst hs
+        have := create_sound t cr.1 root hi hroot
+        exact ⟨this.1, this.2, Or.inr ⟨_, rfl, rfl⟩⟩
+      · simp at hs
+    · simp at hs
 
 /-- with the repaired default every operation is class-safe: no read ever hands out a class-level cell -/
 theorem classSafe_of_fresh {S : Schema} (hS : S.freshArrayDefault = true) {H : Heap} (hi : Inv H) (op : Op) :
